@@ -4,6 +4,8 @@ CONSTANTS
   Specs = {}
   Msgs = {}
   Apis = {}
+  Timeouts = {"short"}
+  MaxElapse = 0
   MaxFeeds = 0
   MaxBatch = 0
   MaxCancel = 0
@@ -16,6 +18,9 @@ CONSTANTS
   AllFieldMatchers = TRUE
   TicketBeforeRegister = TRUE
   LiveListAtCompletion = TRUE
+  ReleaseWhenSendCancelled = TRUE
+  TimeoutForwarded = TRUE
+  RegisterAfterSend = TRUE
 CONSTRAINT OnlyMatching
 CONSTRAINT FirstMatching
 CONSTRAINT AllAnsweredCompleted
